@@ -1476,6 +1476,108 @@ wire_main(void)
 
 static char planbuf[64];
 
+// ---------------------------------------------------------------- fanout mode
+// One sender whose protocol copies a message to several connections (PUB, BUS;
+// cooked, so the message has no protocol header when it reaches the
+// transport) and 2-3 receivers of every kind - cooked and raw SUB / BUS.
+// Every receiver must get exactly the bytes that were sent, whatever the other
+// receivers do with THEIR copy: each one overwrites and trims its message as
+// soon as it has checked it, receivers take turns being first, and the raw
+// ones must see exactly their own 4-byte header (BUS) or none (SUB).
+static void
+fanout_case(long idx)
+{
+	vf_rng r;
+	vf_rng_seed(&r, vf_seed, (uint64_t) idx ^ 0x46414e4fULL);
+	bool       bus   = (idx & 1) != 0;
+	int        tran  = (int[]){ VF_T_INPROC, VF_T_INPROC, VF_T_IPC, VF_T_TCP }[(idx >> 1) & 3];
+	int        nrecv = 2 + (int) vf_below(&r, 2);
+	int        nmsgs = vf_tier ? 60 : 24;
+	nng_socket snd, rcv[3];
+	bool       raw[3];
+	char       kinds[40] = "";
+	vf_case_begin(idx, "fanout: %s sender, %d receivers over %s", bus ? "bus" : "pub", nrecv, vf_tran_names[tran]);
+	vf_watchdog(60);
+	if ((bus ? nng_bus0_open(&snd) : nng_pub0_open(&snd)) != 0) vf_harness_fail("fanout open");
+	nng_socket_set_int(snd, NNG_OPT_SENDBUF, 64);
+	for (int i = 0; i < nrecv; i++) {
+		raw[i] = vf_chance(&r, 2, 3);
+		int rv = bus ? (raw[i] ? nng_bus0_open_raw(&rcv[i]) : nng_bus0_open(&rcv[i])) : (raw[i] ? nng_sub0_open_raw(&rcv[i]) : nng_sub0_open(&rcv[i]));
+		if (rv != 0) vf_harness_fail("fanout open");
+		if (!bus && !raw[i]) nng_sub0_socket_subscribe(rcv[i], "", 0);
+		nng_socket_set_int(rcv[i], NNG_OPT_RECVBUF, 64);
+		nng_socket_set_ms(rcv[i], NNG_OPT_RECVTIMEO, 15000);
+		if (vf_connect(snd, rcv[i], tran) != 0) vf_harness_fail("fanout connect over %s", vf_tran_names[tran]);
+		// (vf_connect is content with one pipe on each side: the sender must have one per receiver)
+		for (int w = 0; w < 5000 && (vf_pipe_count(snd) < i + 1 || vf_pipe_count(rcv[i]) < 1); w++) vf_msleep(1);
+		if (vf_pipe_count(snd) < i + 1) vf_harness_fail("fanout: receiver %d not connected", i);
+		snprintf(kinds + strlen(kinds), sizeof(kinds) - strlen(kinds), "%s%s", i ? "+" : "", raw[i] ? "raw" : "cooked");
+	}
+	vf_quiesce(1, 2000);
+	for (int k = 0; k < nmsgs; k++) {
+		size_t   len = vf_body_size(k % 5 == 0 ? 1000 + vf_below(&r, 3000) : 24 + vf_below(&r, 80));
+		nng_msg *m;
+		if (nng_msg_alloc(&m, len) != 0) vf_harness_fail("msg");
+		vf_body_make(nng_msg_body(m), len, 0xFA00u + (uint32_t) (idx & 0xff), (uint64_t) k);
+		// sometimes the sender keeps a clone (one more holder of the same message)
+		nng_msg *keep = NULL;
+		if (vf_chance(&r, 1, 4)) nng_msg_dup(&keep, m);
+		if (nng_sendmsg(snd, m, 0) != 0) {
+			nng_msg_free(m);
+			vf_harness_fail("fanout send");
+		}
+		int first = (int) vf_below(&r, (uint32_t) nrecv);
+		for (int j = 0; j < nrecv; j++) {
+			int      i  = (first + j) % nrecv;
+			nng_msg *g  = NULL;
+			int      rv = nng_recvmsg(rcv[i], &g, 0);
+			char     key[96];
+			if (rv != 0) {
+				// PUB and BUS may drop when a queue is full; these queues are
+				// never full (one message in flight, depth 64)
+				snprintf(key, sizeof(key), "C01/fanout/lost/%s-%s", bus ? "bus" : "pub", vf_tran_names[tran]);
+				vf_violation(key, "%s sender, %d receivers (%s) over %s: receiver %d (%s) did not get message %d (%s) although every queue was empty", bus ? "bus" : "pub", nrecv, kinds, vf_tran_names[tran], i, raw[i] ? "raw" : "cooked", k, nng_strerror(rv));
+				k = nmsgs; // the receivers are out of step from here on: end of this case
+				break;
+			}
+			uint32_t tag = 0;
+			uint64_t seq = 0;
+			size_t   hl  = nng_msg_header_len(g);
+			size_t   want_h = (bus && raw[i]) ? 4 : 0;
+			int      bad = vf_body_check(nng_msg_body(g), nng_msg_len(g), &tag, &seq);
+			if (bad != 0 || nng_msg_len(g) != len || seq != (uint64_t) k) {
+				snprintf(key, sizeof(key), "C01/fanout/body-bytes/%s-%s", bus ? "bus" : "pub", vf_tran_names[tran]);
+				vf_violation(key, "%s sender, %d receivers (%s) over %s: receiver %d (%s), taking message %d as number %d of the receivers, got %zu body bytes (sent %zu) that %s: another receiver's edits or header reached this receiver's message", bus ? "bus" : "pub", nrecv, kinds,
+				    vf_tran_names[tran], i, raw[i] ? "raw" : "cooked", k, j + 1, nng_msg_len(g), len, bad != 0 ? "do not check" : "carry another sequence number");
+			} else if (hl != want_h) {
+				snprintf(key, sizeof(key), "C01/fanout/raw-header/%s-%s", bus ? "bus" : "pub", vf_tran_names[tran]);
+				vf_violation(key, "%s sender, %d receivers (%s) over %s: receiver %d (%s) got a header of %zu bytes, expected %zu", bus ? "bus" : "pub", nrecv, kinds, vf_tran_names[tran], i, raw[i] ? "raw" : "cooked", hl, want_h);
+			} else {
+				vf_stat("fanout_deliveries_verified", 1);
+			}
+			// this receiver now does what it likes with ITS message
+			memset(nng_msg_body(g), 0xEE, nng_msg_len(g));
+			if (nng_msg_len(g) >= 8) nng_msg_trim(g, 5);
+			nng_msg_insert(g, "scribble", 8);
+			nng_msg_header_clear(g);
+			nng_msg_free(g);
+		}
+		if (keep != NULL) {
+			uint32_t tag = 0;
+			uint64_t seq = 0;
+			if (vf_body_check(nng_msg_body(keep), nng_msg_len(keep), &tag, &seq) != 0 || seq != (uint64_t) k) {
+				vf_violation("C01/fanout/sender-copy-changed", "the duplicate the sender kept of message %d changed after the receivers edited theirs", k);
+			}
+			nng_msg_free(keep);
+		}
+	}
+	vf_stat("fanout_cases", 1);
+	vf_stat("cases", 1);
+	vf_class("fanout/%s/%s/%s", bus ? "bus" : "pub", vf_tran_names[tran], kinds);
+	nng_socket_close(snd);
+	for (int i = 0; i < nrecv; i++) nng_socket_close(rcv[i]);
+}
+
 int
 main(int argc, char **argv)
 {
@@ -1514,6 +1616,11 @@ main(int argc, char **argv)
 		}
 	} else if (!strcmp(vf_mode, "wire")) {
 		wire_main();
+	} else if (!strcmp(vf_mode, "fanout")) {
+		for (long i = 0; i < vf_cases; i++, idx++) {
+			if (!vf_want_case(idx)) continue;
+			fanout_case(idx);
+		}
 	} else {
 		// sampled plans over all transports / pairs / sizes
 		for (long i = 0; i < vf_cases; i++, idx++) {
